@@ -35,6 +35,7 @@ fn chroma_like(space: Space, c: &V3) -> Option<f64> {
 fn g_to_l(src: Space, g: f64) -> f64 {
     match src {
         Space::Rgb(st) => st.tf.decode(g).cbrt(),
+        Space::Luma(_, tf) => tf.decode(g).cbrt(),
         _ => g,
     }
 }
@@ -46,7 +47,7 @@ fn whites_and_neutrals(ctx: &Ctx, report: &mut Report) {
     }
     let mut m = Monitor::new(
         mname,
-        "every RGB standard of the table (sRGB, linear, Adobe, Rec.709/2020, Display P3, DCI-P3, ProPhoto, sRGB primaries with white points E and A; f32/f64): (1,1,1) -> XYZ of the standard's white point, L* = 100 with zero a*, b*, u*, v*, chroma, Oklab (1,0,0); all 256 8-bit grey levels and seeded greys -> zero chroma / saturation in every colorimetric space of the group and back to equal RGB components; CAM16 lightness 100 for the adopted white; \
+        "every RGB standard and every luma type of the table (sRGB, linear, Adobe, Rec.709/2020, Display P3, DCI-P3, ProPhoto, sRGB primaries with white points E and A; f32/f64): (1,1,1) -> XYZ of the standard's white point, L* = 100 with zero a*, b*, u*, v*, chroma, Oklab (1,0,0); all 256 8-bit grey levels and seeded greys -> zero chroma / saturation in every colorimetric space of the group and back to equal RGB components; CAM16 lightness 100 for the adopted white; \
          distinct = (source standard, target type, clause)",
     );
     let types = ct::types();
@@ -61,9 +62,11 @@ fn whites_and_neutrals(ctx: &Ctx, report: &mut Report) {
     }
     greys.extend([1e-9, 1e-6, 1.0 - 1e-9, 0.5]);
     for &(i, j) in pairs.iter() {
-        if types[i].kind != "rgb" {
+        // RGB standards and the single-channel luma types (whose direct conversions fill in the white point's chromaticity)
+        if types[i].kind != "rgb" && types[i].kind != "luma" {
             continue;
         }
+        let src_luma = types[i].kind == "luma";
         let inst = format!("{}->{}", types[i].name, types[j].name);
         if let Some((r, _)) = &replay {
             if *r != inst {
@@ -84,7 +87,7 @@ fn whites_and_neutrals(ctx: &Ctx, report: &mut Report) {
         };
         for &g in &list {
             let g = if is32 { g as f32 as f64 } else { g };
-            let x = [g, g, g];
+            let x = if src_luma { [g, 0.0, 0.0] } else { [g, g, g] };
             let y = ct::convert(i, j, x).unwrap();
             let inp = || json!({"grey": g, "rgb": fvec(&x)});
             // root cause of the recorded finding: the Oklab chroma of this grey is ~3.9e-5 L instead of 0; Okhsl/Okhsv/Okhwb
@@ -136,10 +139,15 @@ fn whites_and_neutrals(ctx: &Ctx, report: &mut Report) {
             if types[j].kind != "luma" {
                 if let Some(back) = ct::convert(j, i, y) {
                     m.eval();
-                    let spread = back[0].max(back[1]).max(back[2]) - back[0].min(back[1]).min(back[2]);
-                    let off = (0..3).map(|k| (back[k] - g).abs()).fold(0.0, f64::max);
+                    let spread = if src_luma { 0.0 } else { back[0].max(back[1]).max(back[2]) - back[0].min(back[1]).min(back[2]) };
+                    let off = (0..if src_luma { 1 } else { 3 }).map(|k| (back[k] - g).abs()).fold(0.0, f64::max);
                     // the encoded value of a near-black grey amplifies linear error by the slope of the transfer curve
                     let slope = match src {
+                        Space::Luma(_, tf) => {
+                            let lin = tf.decode(g);
+                            let h = (lin * 1e-3).max(1e-9);
+                            ((tf.encode(lin + h) - tf.encode(lin)) / h).abs().max(1.0)
+                        }
                         Space::Rgb(st) => {
                             let lin = st.tf.decode(g);
                             let h = (lin * 1e-3).max(1e-9);
